@@ -52,6 +52,9 @@ impl Env {
         std::fs::write(d.join("sub/big.bin"), pattern(300_000, 0x33)).ok()?;
         std::fs::write(d.join("sub/unrelated.txt"), b"not in the plan\n").ok()?;
         std::fs::write(d.join("sub/same.txt"), b"identical on both sides\n").ok()?;
+        std::fs::write(s.join("readonly.txt"), b"new content for a file that is read-only at the destination\n").ok()?;
+        std::fs::write(d.join("readonly.txt"), b"old read-only content\n").ok()?;
+        { use std::os::unix::fs::PermissionsExt; let _ = std::fs::set_permissions(d.join("readonly.txt"), std::fs::Permissions::from_mode(0o444)); }
         let old = std::time::UNIX_EPOCH + std::time::Duration::from_secs(1_500_000_000);
         for (r, p) in [(&d, "a.txt"), (&d, "sub/big.bin"), (&d, "sub/same.txt"), (&s, "sub/same.txt")] { if let Ok(f) = std::fs::File::options().write(true).open(r.join(p)) { let _ = f.set_modified(old); } }
         Some(())
@@ -219,6 +222,9 @@ fn plan_case_v(env: &Env, fi: usize, variant: usize) -> Option<PlanCase> {
             _ => { let mut same = c.clone(); same[1] ^= 0x20; wr(&dr, n, &same, t0 - 500)?; }        // same size, different mtime
         }
     }
+    // a source file stamped in second 0 of the epoch (a legal mtime: "at or after the epoch"), absent at the destination
+    wr(&sr, "epoch second zero.txt", b"stamped at the very beginning of the epoch", 0)?;
+    wr(&sr, "sub dir/epoch second one.txt", b"one second later", 1)?;
     // names that are neighbours in byte order but not in path-component order (`reports/...` vs `reports.txt` vs `reports-old/...`):
     // present and identical (bytes, size, mtime) on both sides - they are in no plan, whatever the flags
     for (i, n) in SIBLINGS.iter().enumerate() { let c = format!("identical on both sides {i}").into_bytes(); wr(&sr, n, &c, t0 - 77)?; wr(&dr, n, &c, t0 - 77)?; }
@@ -364,7 +370,7 @@ pub fn run_plan(w: &str) -> i32 {
 /// mtimes), in this direction. Source mtimes include a sub-second part, the epoch itself and a far-future value.
 /// root directory names a shell would trip over (quotes of both kinds, a backslash, a space, a dollar sign)
 pub const ROOTS: [(&str, &str); 5] = [("src", "dst"), ("src:a", "dst:with:colons"), ("the source's", "bob's backup"), ("src \"quoted\" $HOME", "back\\slash dst"), ("src", "it's 'twice' quoted")];
-pub fn second_run_is_noop(dir: &str) -> Option<String> { for ri in 0..ROOTS.len() { if let Some(w) = second_run_is_noop_r(dir, ri) { return Some(w); } } None }
+pub fn second_run_is_noop(dir: &str) -> Option<String> { for ri in 0..ROOTS.len() { if let Some(w) = second_run_is_noop_r(dir, ri) { return Some(w); } } second_run_is_noop_links(dir) }
 pub fn second_run_is_noop_r(dir: &str, ri: usize) -> Option<String> {
     let env = Env::new(&format!("noop{dir}{ri}"))?;
     let (sname, dname) = ROOTS[ri.min(ROOTS.len() - 1)];
@@ -373,8 +379,22 @@ pub fn second_run_is_noop_r(dir: &str, ri: usize) -> Option<String> {
     let r = second_run_is_noop_in(&env, dir, dname);
     r.map(|w| w.replacen(&format!("[{dir}]"), &format!("[{dir_l}]"), 1))
 }
-fn second_run_is_noop_in(env: &Env, dir: &str, dname: &str) -> Option<String> {
+/// roots that are SYMLINKS to the real directories, named without a trailing slash
+pub fn second_run_is_noop_links(dir: &str) -> Option<String> {
+    let env = Env::new(&format!("nooplink{dir}"))?;
+    *env.src_name.borrow_mut() = "src-link".to_string();
+    let r = second_run_is_noop_in2(&env, dir, "dst-link", true);
+    r.map(|w| w.replacen(&format!("[{dir}]"), &format!("[{dir}, both roots are symlinks to directories]"), 1))
+}
+fn second_run_is_noop_in(env: &Env, dir: &str, dname: &str) -> Option<String> { second_run_is_noop_in2(env, dir, dname, false) }
+fn second_run_is_noop_in2(env: &Env, dir: &str, dname: &str, links: bool) -> Option<String> {
     env.populate(dname)?;
+    if links {
+        for n in [env.src_name.borrow().clone(), dname.to_string()] {
+            let (l, real) = (env.dir.join(&n), env.dir.join(format!("{n}.real")));
+            std::fs::rename(&l, &real).ok()?; std::os::unix::fs::symlink(&real, &l).ok()?;
+        }
+    }
     let src = env.src();
     let set = |p: &str, secs: u64, nanos: u32| { if let Ok(f) = std::fs::File::options().write(true).open(src.join(p)) { let _ = f.set_modified(std::time::UNIX_EPOCH + std::time::Duration::new(secs, nanos)); } };
     // names ending in white space (a listing parser that trims its records loses them)
